@@ -33,7 +33,11 @@ func Verif_C11_Hist(cfg int) {
 
 func Verif_C13_Hist(cfg int) {
 	w := newWorld(13, cfg%32)
-	w.history(histBounds(), []int{0, 1, 2, 3, 4, 5}, cfg/32 == 1, cfg/32 == 2)
+	K := histBounds()
+	if cfg/32 == 3 {
+		K = 1
+	}
+	w.history(K, []int{0, 1, 2, 3, 4, 5}, cfg/32 == 1, cfg/32 == 2)
 	// argument domain widened to "well-typed": pool settings
 	if cfg/32 == 3 {
 		idx := verifNondetInt("poolMemoryTypeIndex")
@@ -51,7 +55,11 @@ func Verif_C13_Hist(cfg int) {
 // allocator are destroyed.
 func Verif_C20_Teardown(cfg int) {
 	w := newWorld(20, cfg%32)
-	w.history(histBounds(), []int{0, 1, 2, 3}, true, false)
+	if verifTier() == 1 {
+		w.history(3, []int{0, 1, 2, 3}, true, false)
+	} else {
+		w.historyPV(3, []int{0, 3}, true, false, []int{0, 1})
+	}
 	leak := -1
 	if len(w.live) > 0 && verifChoice("leakOne", 2) == 1 {
 		leak = verifChoice("leaked", len(w.live))
